@@ -1,0 +1,10 @@
+//go:build verif
+
+package reg
+
+import "time"
+
+// VerifBackoff exposes the backoff bookkeeping the http client keeps for a host (verification hook).
+func (reg *Reg) VerifBackoff(host string) (cur int, last time.Time, reset int) {
+	return reg.reghttp.VerifBackoff(host)
+}
